@@ -4,6 +4,7 @@ import GqlVerif.Proofs.C01AbstractI
 import GqlVerif.Proofs.C01RecursiveE
 import GqlVerif.Proofs.C01RecursiveV
 import GqlVerif.Proofs.C01Rust
+import GqlVerif.Proofs.C01VariantSpread
 open GqlVerif.C01
 #print axioms accepts_mono
 #print axioms conforming_int_accepted
@@ -71,3 +72,19 @@ open GqlVerif.C01
 #print axioms GqlVerif.C01.E2E.fragment_lossless_rust
 #print axioms GqlVerif.C01.E2E.recfragment_accepts_rust
 #print axioms GqlVerif.C01.E2E.recfragment_lossless_rust
+-- the defect repaired by 78c01b5, as a positive statement on the repaired model (Proofs/C01RecursiveV.lean)
+#print axioms GqlVerif.C01.E2E.variantspread_alias_keeps_sibling
+-- named fragment spreads at abstract positions (Proofs/C01VariantSpread*.lean)
+#print axioms GqlVerif.C01.E2E.variantSpreadOp_of_variantOp
+#print axioms GqlVerif.C01.E2E.variantspread_items_shape
+#print axioms GqlVerif.C01.E2E.variantspread_module_shape
+#print axioms GqlVerif.C01.E2E.variantspread_accepts
+#print axioms GqlVerif.C01.E2E.variantspread_lossless_partial
+#print axioms GqlVerif.C01.E2E.variantspread_roundtrip_partial
+#print axioms GqlVerif.C01.E2E.variantspread_b_roundtrip
+#print axioms GqlVerif.C01.E2E.variantspread_overlap_interface_loses_key
+#print axioms GqlVerif.C01.E2E.variantspread_overlap_variant_loses_key
+#print axioms GqlVerif.C01.E2E.variantspread_b_overlap_loses_key
+#print axioms GqlVerif.C01.E2E.ws_items_shape
+#print axioms GqlVerif.C01.E2E.ws_roundtripH
+#print axioms GqlVerif.C01.E2E.bs_items_shape
